@@ -439,6 +439,13 @@ def call(ex, fr, c, a):
             d = z3.If(x < y, z3.IntVal(-1), z3.If(x == y, z3.IntVal(0), z3.IntVal(1)))
             return some(EnumV('Ordering', conc(z3.simplify(d)), {'Less': (), 'Equal': (), 'Greater': ()}))
         return some(EnumV('Ordering', -1 if x < y else (0 if x == y else 1), {'Less': (), 'Equal': (), 'Greater': ()}))
+    m = re.fullmatch(r'(?:std::option::)?Option::<.*>::(unwrap_or_else|unwrap_or_default)(?:::<.*>)?', c)
+    if m:
+        _note(ex, 'Option::%s' % m.group(1)); r = a[0]; d = conc(r.discr)
+        alt = (lambda: ex.call_callable(a[1], [])) if m.group(1) == 'unwrap_or_else' else (lambda: Fraction(0))
+        if not is_sym(d): return r.pay['Some'][0] if d == 1 else alt()
+        if 'Some' not in r.pay: return alt()
+        return merge_val(d == 1, r.pay['Some'][0], alt())
     m = re.fullmatch(r'(?:std::option::)?Option::<.*>::(map|map_or|and_then)::<.*>', c)
     if m:
         _note(ex, 'Option::%s(closure)' % m.group(1)); r = a[0]; d = conc(r.discr)
@@ -446,6 +453,10 @@ def call(ex, fr, c, a):
             if not is_sym(d): return some(ex.call_callable(a[1], [r.pay['Some'][0]])) if d == 1 else NONE
             if 'Some' not in r.pay: return NONE
             return merge_val(d == 1, some(ex.call_callable(a[1], [r.pay['Some'][0]])), NONE)
+        if m.group(1) == 'map_or':
+            if not is_sym(d): return ex.call_callable(a[2], [r.pay['Some'][0]]) if d == 1 else a[1]
+            if 'Some' not in r.pay: return a[1]
+            return merge_val(d == 1, ex.call_callable(a[2], [r.pay['Some'][0]]), a[1])
         raise Unsupported('Option::' + m.group(1))
     if re.fullmatch(r'<f64 as Default>::default', c): return Fraction(0)
     if re.fullmatch(r'<usize as Default>::default', c): return 0
